@@ -33,6 +33,9 @@ class PipeNoHaz(c02.Pipe):
 class DelayedWB(Slice):
     name = "delayed-wb"
 
+    def exhaustive(self, tier):
+        return None
+
     def gen(self, rng, index, tier):
         prog = gen_rv.gen_program(rng, maxlen=14, allow_fault=False)
         return {"spec": gen_rv.gen_state_spec(rng, prog)}
@@ -138,11 +141,26 @@ class Padded(Slice):
         return ["ran"]
 
 
+class DelayedWBExhaustive(DelayedWB):
+    """all sequences over the C02 hazard alphabet up to length 3 (quick) / 4 (thorough), flag off"""
+    name = "delayed-wb-exhaustive"
+
+    def exhaustive(self, tier):
+        for c in c02.ModesExhaustive().exhaustive(tier):
+            yield {"spec": c["spec"]}
+
+    def gen(self, rng, index, tier):
+        return None
+
+    def required_classes(self, tier):
+        return ["stale-read", "retired>=3", "ecall-drain"]
+
+
 def slices():
-    return [PipeNoHaz(), DelayedWB(), Padded()]
+    return [PipeNoHaz(), DelayedWB(), DelayedWBExhaustive(), Padded()]
 
 
 BUDGET = {
-    "quick": {"pipe-nohaz": 800, "delayed-wb": 600, "padded": 300},
-    "thorough": {"pipe-nohaz": 20000, "delayed-wb": 20000, "padded": 8000},
+    "quick": {"pipe-nohaz": 800, "delayed-wb": 600, "delayed-wb-exhaustive": "exhaustive", "padded": 300},
+    "thorough": {"pipe-nohaz": 20000, "delayed-wb": 20000, "delayed-wb-exhaustive": "exhaustive", "padded": 8000},
 }
